@@ -1,3 +1,5 @@
+//go:build test && verif
+
 package suites
 
 // C11 (suite "rogue"): whatever a server sends or does, the client does not
